@@ -11,8 +11,9 @@ from .core import Check, zlist
 IMPORTS = ["Base.Prelude", "Tree.Forest", "Tree.Clip", "Tree.Corr"]
 
 # A tree node (generator side):  ("L", clip, rp)  |  ("N", clip, st, rp, [children])
-#   st: 0 = the group's record has only a NESTED_SECTION_DIVIDER_SETTING block, 1 = SECTION block without blend mode,
-#       2 = SECTION block with PASS_THROUGH, 3 = SECTION block with NORMAL;  rp: record.blend_mode == PASS_THROUGH
+#   st = code(SECTION_DIVIDER_SETTING block) + 4 * code(NESTED_SECTION_DIVIDER_SETTING block) of the group's own record,
+#       block code: 0 absent, 1 present without blend mode, 2 present with PASS_THROUGH, 3 present with NORMAL
+#       (at least one block is present);  rp: record.blend_mode == PASS_THROUGH
 # ids are preorder indices, carried as layer names "n<id>".
 
 
@@ -84,12 +85,11 @@ def build_records(forest):
             go(x)
         e = rec("n%d" % i, clip, rp)
         kind = 1 + (i % 2)
-        if st == 0:
-            e.tagged_blocks[Tag.NESTED_SECTION_DIVIDER_SETTING] = TaggedBlock(key=Tag.NESTED_SECTION_DIVIDER_SETTING, data=SectionDividerSetting(kind=kind))
-        else:
-            bm = {1: None, 2: BlendMode.PASS_THROUGH, 3: BlendMode.NORMAL}[st]
-            e.tagged_blocks[Tag.SECTION_DIVIDER_SETTING] = TaggedBlock(
-                key=Tag.SECTION_DIVIDER_SETTING, data=SectionDividerSetting(kind=kind, signature=b"8BIM" if bm else None, blend_mode=bm))
+        bmap = {1: None, 2: BlendMode.PASS_THROUGH, 3: BlendMode.NORMAL}
+        for key, code in ((Tag.SECTION_DIVIDER_SETTING, st % 4), (Tag.NESTED_SECTION_DIVIDER_SETTING, st // 4)):
+            if code:
+                bm = bmap[code]
+                e.tagged_blocks[key] = TaggedBlock(key=key, data=SectionDividerSetting(kind=kind, signature=b"8BIM" if bm else None, blend_mode=bm))
         recs.append(e)
 
     for t in forest:
@@ -360,22 +360,31 @@ def gen_nested(ck):
     # one group among up to 3 siblings, every flag assignment, every small child list
     # how the group's pass-through-ness is written down: A = SECTION block carrying the blend mode,
     # B = only a NESTED block (the record's blend mode answers), C = SECTION block without blend mode (never pass-through)
+    # D = only a NESTED block carrying the blend mode, E = both blocks with DIFFERENT blend modes (the nested one decides),
+    # F = SECTION block with the blend mode + NESTED block without one (the nested one decides: never pass-through)
     def grp(c, p, enc, ch):
         if enc == "A":
             return ("N", c, 2 if p else 3, 0, list(ch))
         if enc == "B":
-            return ("N", c, 0, p, list(ch))
+            return ("N", c, 4, p, list(ch))
+        if enc == "D":
+            return ("N", c, 8 if p else 12, 0, list(ch))
+        if enc == "E":
+            return ("N", c, (3 if p else 2) + (8 if p else 12), 1 - p, list(ch))
+        if enc == "F":
+            return ("N", c, (2 if p else 3) + 4, p, list(ch))
         return ("N", c, 1, p, list(ch))
 
     for n in range(1, 5 if thorough else 4):
         for pos in range(n):
             for combo in itertools.product([(0, 0), (1, 0), (0, 1), (1, 1)], repeat=n):
-                for enc in ("ABC" if thorough else "AB"):
+                for enc in ("ABCDEF" if thorough else "ADE"):
                     for ch in small:
                         yield [grp(c, p, enc, ch) if i == pos else ("L", c, p) for i, (c, p) in enumerate(combo)]
     for combo in itertools.product([(0, 0), (1, 0), (0, 1), (1, 1)], repeat=2):
         for ch in small:
-            yield [grp(c, p, "C", ch) for (c, p) in combo]
+            for enc in "BCF":
+                yield [grp(c, p, enc, ch) for (c, p) in combo]
 
     def rnd(depth):
         n = rng.randint(0, 6 if depth else 7)
@@ -383,7 +392,7 @@ def gen_nested(ck):
         for _ in range(n):
             c = int(rng.random() < 0.5)
             if depth < 8 and rng.random() < (0.35 if depth < 3 else 0.6 if rng.random() < 0.2 else 0.15):
-                st = rng.choice([0, 1, 2, 2, 3])
+                st = rng.choice([1, 2, 2, 3, 4, 8, 8, 12, 11, 14, 14, 6, 7, 9, 13])
                 out.append(("N", c, st, int(rng.random() < 0.4), rnd(depth + 1)))
             else:
                 out.append(("L", c, int(rng.random() < 0.2)))
@@ -554,12 +563,12 @@ def forest_of(group):
         clip = int(r.clipping == Clipping.NON_BASE)
         rp = int(r.blend_mode == BlendMode.PASS_THROUGH)
         if l.is_group():
-            blk = r.tagged_blocks.get(Tag.SECTION_DIVIDER_SETTING)
-            if blk is None:
-                st = 0
-            else:
-                bm = blk.data.blend_mode
-                st = 1 if bm is None else 2 if bm == BlendMode.PASS_THROUGH else 3
+            st = 0
+            for key, w in ((Tag.SECTION_DIVIDER_SETTING, 1), (Tag.NESTED_SECTION_DIVIDER_SETTING, 4)):
+                blk = r.tagged_blocks.get(key)
+                if blk is not None:
+                    bm = blk.data.blend_mode
+                    st += w * (1 if bm is None else 2 if bm == BlendMode.PASS_THROUGH else 3)
             out.append(("N", lid(l), clip, st, rp, forest_of(l)))
         else:
             out.append(("L", lid(l), clip, rp))
